@@ -72,7 +72,7 @@ CLAIMED = {
              "ServerHello, from the ChangeCipherSpec records on: each direction's ChangeCipherSpec, then its Finished and application records in any mix, the directions "
              "interleaved in any way -- exactly the application contents are exported as application data, in order; handshake records and ChangeCipherSpec only as metadata), "
              "and the same for RC4, CBC with explicit IVs and CBC with chained IVs (C01_rc4_session, C01_cbc_explicit_session, C01_cbc_chained_session: instances of one generic "
-             "bookkeeping theorem). "
+             "bookkeeping theorem); C01_fresh12_* (the premises are what Decryptor.__init__ yields from a TLS <= 1.2 key set). "
              "ServerHello: C01_server_hello_parsed (random, suite, compression, extension dictionary and selected version are exactly what an RFC-encoded ServerHello carries, "
              "with any session id, any extensions or none, followed by anything in the record), C01_extension_walk, C01_tls13_keys_installed. "
              "Keys are C15's theorems, record delivery C05's, output concatenation C06's. NOT proved: the ClientHello side (a fixed slice) and key lookup end to end, TLS 1.3 server data before the client Finished and post-handshake messages: decided by the independent reference sender "
